@@ -406,6 +406,24 @@ class World2:
         if a is None or a.obj is None:
             return self.skip()
         it = self.fresh(a, op["id"])
+        if op.get("dup") is not None and a.model:
+            # an item equal to one the block already holds (same label and data, another channel)
+            dup_id = a.model[op["dup"] % len(a.model)][1]
+            if dup_id is not None:
+                op = dict(op, id=dup_id)
+                it = make_item(a.cls, a.n, dup_id) if op.get("dup_how") != "same_object" or dup_id not in a.items \
+                    else a.items[dup_id]
+                self.stats["add_duplicate_item"] += 1
+        elif op.get("borrow") is not None:
+            # the very item object another block holds, added here (under whatever channel)
+            other = self.actor(op["borrow"])
+            if other is not None and other is not a and other.obj is not None and other.model:
+                oid = other.model[op.get("k", 0) % len(other.model)][1]
+                if oid in other.items:
+                    op = dict(op, id=oid)
+                    it = other.items[oid]
+                    a.items[oid] = it
+                    self.stats["add_borrowed_item"] += 1
         ch = op.get("ch")
         used = [c for c, _ in a.model]
         if a.cls not in CHANNELLED:
@@ -459,6 +477,17 @@ class World2:
             if L == a.n:
                 return self.skip()
             it = make_item(a.cls, a.n, op["id"], L)
+        elif kindname.startswith("shape"):
+            # same number of elements, other number of frames
+            if a.cls == "emg" and a.n >= 2:
+                rows = 2 if a.n % 2 == 0 and a.n > 2 else 1
+                it = EMGTrack(f"i{op['id']}", np.zeros((rows, a.n // rows), dtype=np.float32))
+            elif a.cls == "data3d" and a.n >= 1:
+                it = MarkerTrack(f"i{op['id']}", np.zeros(3 * a.n, dtype=np.float32))
+                if it.nFrames == a.n:
+                    return self.skip()
+            else:
+                return self.skip()
         else:
             it = wrong_kind(kindname[5:])
             if a.cls == "events":
@@ -477,7 +506,7 @@ class World2:
         if a.cls == "emg":
             return lambda: o.removeSignal(f"i{iid}")
         if a.cls == "fpcal":
-            if by == "object" and iid in a.items:
+            if by == "object" and iid in a.items and ids.count(iid) == 1:
                 return lambda: o.remove_platform(a.items[iid])
             return lambda: o.remove_platform(k)
         if a.cls == "optical":
@@ -491,6 +520,9 @@ class World2:
         if a is None or a.obj is None or not a.model:
             return self.skip()
         k = op.get("k", 0) % len(a.model)
+        if a.cls == "emg":  # removal is by label: the first signal carrying that label goes
+            ids = [i for _c, i in a.model]
+            k = ids.index(ids[k])
         thunk = self.remover(a, op.get("by", "index"), k)
         if thunk is None:
             return self.skip()
@@ -558,7 +590,8 @@ class World2:
             ks = sorted({k % len(a.model) for k in op["ks"]}, reverse=True) if a.model else []
             if not ks:
                 return self.skip()
-            if op.get("by") == "object" and all(a.model[k][1] in a.items for k in ks):
+            allids = [i for _c, i in a.model]
+            if op.get("by") == "object" and all(a.model[k][1] in a.items and allids.count(a.model[k][1]) == 1 for k in ks):
                 args = [a.items[a.model[k][1]] for k in ks]
             else:
                 args = ks  # descending indices stay valid while deleting
@@ -590,6 +623,8 @@ class World2:
                 if L == a.n:
                     return self.skip()
                 items[k] = make_item(a.cls, a.n, ids[k], L)
+            elif bad_kind.startswith("shape"):
+                return self.skip()
             else:
                 items[k] = wrong_kind(bad_kind[5:])
             faulty = True
@@ -607,6 +642,25 @@ class World2:
             payload = Raiser(payload, raise_after % (len(items) + 1))
             faulty = True
             self.stats["fault_raising_iterator"] += 1
+        else:
+            how = op.get("as", "list")
+            if how == "iter":
+                payload = iter(payload)  # a one-shot iterable
+            elif how == "gen":
+                payload = (x for x in payload)
+            elif how == "tuple":
+                payload = tuple(payload)
+            elif how == "own" and a.cls in ("data3d", "ft") and not faulty and a.model:
+                # derived lazily from the block's own list: b.tracks = filter(pred, b.tracks)
+                keep = set(op.get("keep", [0, 2, 4]))
+                cur = list(a.obj.tracks)
+                keep_ids = {id(t) for k, t in enumerate(cur) if k in keep}
+                kept = [(k, t) for k, t in enumerate(cur) if id(t) in keep_ids]
+                items = [t for _k, t in kept]
+                ids = [a.model[k][1] for k, _t in kept]
+                new_model = [(None, i) for i in ids]
+                payload = filter(lambda t, keep_ids=keep_ids: id(t) in keep_ids, a.obj.tracks)
+            self.stats["assign_as_" + how] += 1
         old_ids = [i for _c, i in a.model]
         old_objs = list(a.obj.tracks) if a.cls in ("data3d", "ft") else None
         attr = "tracks" if a.cls in ("data3d", "ft") else "platforms"
@@ -672,6 +726,9 @@ class World2:
             return self.skip()
         k = op.get("k", 0) % len(a.model)
         it = list(a.obj)[k]
+        for b in self.actors.values():
+            if b is not a and b.obj is not None and any(x is it for x in b.items.values()):
+                return self.skip()  # the user shares this very object between two blocks
         arr = {"emg": lambda: it.data, "data3d": lambda: it.data, "ft": lambda: it.force,
                "events": lambda: it.values}[a.cls]()
         kind, val = self.call(lambda: arr.__setitem__(slice(None), np.nan_to_num(arr, nan=7.0) + 1000.0))
